@@ -1676,6 +1676,26 @@ func clearedNeighborState(conf *oc.Neighbor) oc.NeighborState {
 	return st
 }
 
+// dropStaleOfFamiliesNotRenewed is run when the session of a restarting peer
+// is up again. RFC 4724 4.2: if the new OPEN carries no Graceful Restart
+// capability, or the capability does not list a family, the routes of that
+// family that were retained are removed immediately - no End-of-RIB will
+// come for them. With no family left the peer is not restarting any more.
+func (s *BgpServer) dropStaleOfFamiliesNotRenewed(peer *peer) {
+	if !peer.fsm.pConf.ReadOnly().GracefulRestart.State.PeerRestarting {
+		return
+	}
+	renewed, gone := peer.forwardingPreservedFamilies()
+	if len(gone) > 0 {
+		dropped := peer.adjRibIn.DropStale(gone)
+		s.notifyAdjInWithdrawWatcher(peer, dropped)
+		s.propagateUpdate(peer, dropped)
+	}
+	if len(renewed) == 0 {
+		peer.stopPeerRestarting()
+	}
+}
+
 func (s *BgpServer) handleFSMMessage(peer *peer, e *fsmMsg) {
 	needStopNeighbor := false
 	var oldState bgp.FSMState
@@ -1860,6 +1880,7 @@ func (s *BgpServer) handleFSMMessage(peer *peer, e *fsmMsg) {
 		drainChannel(peer.fsm.outgoingCh.Out())
 
 		if nextState == bgp.BGP_FSM_ESTABLISHED {
+			s.dropStaleOfFamiliesNotRenewed(peer)
 			conf := peer.fsm.pConf.ReadOnly()
 			peerInfo := table.NewPeerInfo(peer.fsm.gConf, conf,
 				conf.State.PeerAs, conf.Config.LocalAs,
